@@ -92,7 +92,8 @@ type Opts struct {
 	HostHdr string `json:"hostHdr"` // Request.Header.SetHost(...) ("": not set)
 }
 
-// Op is one operation on a specially stored request header, carried out in order after everything else:
+// Op is one operation on a specially stored request header, carried out in order after the header adds and the
+// option setters and before the body is attached:
 //   set name value (Header.Set) | del name (Header.Del) | setHost v | setUA v | setCT v | setClose | resetClose |
 //   setCookie name value
 type Op struct {
